@@ -9,9 +9,10 @@ assignments, differences, sums, products with scalars and the usual helpers.
 from __future__ import annotations
 
 import ast
-from typing import Dict, List, Optional, Tuple
+from typing import Dict, List, Optional, Set, Tuple
 
-from .model import ClassInfo, FuncInfo, Repo, attr_chain, walk_shallow
+from .model import ClassInfo, FuncInfo, Repo, TypeEnv, attr_chain, parent, walk_shallow
+from .report import RuleRun
 
 P, V, S, U = "P", "V", "S", "?"
 
@@ -417,3 +418,122 @@ def geometry_violations(repo: Repo, fn: FuncInfo):
                 if a in (P, V, PL, VL):
                     classified += 1
     return out, classified
+
+
+# ---------------------------------------------------------------------------------------------------------------------
+def _normalising_params(repo: Repo, depth: int = 3) -> Dict[str, Set[str]]:
+    """qualname -> parameters the function only ever uses normalised (unit_vector(p), p / norm(p)) or hands on to a
+    parameter of a callee that does; fixpoint over `depth` rounds."""
+    funcs = list(repo.all_functions())
+    out: Dict[str, Set[str]] = {f.qualname: set() for f in funcs}
+
+    def normalised_use(fn: FuncInfo, name: str) -> bool:
+        alias = {name}
+        for n in ast.walk(fn.node):
+            if isinstance(n, ast.Assign) and len(n.targets) == 1 and isinstance(n.targets[0], ast.Name) and isinstance(n.value, ast.Call) and (attr_chain(n.value.func) or "").split(".")[-1] in PASS_THROUGH and n.value.args and isinstance(n.value.args[0], ast.Name) and n.value.args[0].id in alias:
+                alias.add(n.targets[0].id)
+        uses = [n for n in ast.walk(fn.node) if isinstance(n, ast.Name) and n.id in alias and isinstance(n.ctx, ast.Load)]
+        if not uses:
+            return False
+        for u in uses:
+            p = parent(u)
+            if isinstance(p, ast.Call) and u in p.args:
+                nm = (attr_chain(p.func) or "").split(".")[-1]
+                if nm in PASS_THROUGH or nm in ("unit_vector", "norm"):
+                    continue
+                env = TypeEnv(repo, fn)
+                callees, _ = env.resolve_call(p)
+                idx = p.args.index(u)
+                ok = bool(callees)
+                for c in callees:
+                    off = 1 if (c.cls is not None and not c.is_staticmethod and isinstance(p.func, ast.Attribute)) else 0
+                    pn = c.params[idx + off] if idx + off < len(c.params) else None
+                    if pn is None or pn not in out.get(c.qualname, set()):
+                        ok = False
+                if ok:
+                    continue
+                return False
+            if isinstance(p, ast.BinOp) and isinstance(p.op, ast.Div) and p.left is u and isinstance(p.right, ast.Call) and (attr_chain(p.right.func) or "").split(".")[-1] == "norm":
+                continue
+            return False
+        return True
+
+    for _ in range(depth):
+        for fn in funcs:
+            for p in fn.params:
+                if p not in out[fn.qualname] and normalised_use(fn, p):
+                    out[fn.qualname].add(p)
+    return out
+
+
+def unit_axis_rule(repo: Repo, prop: str, rule_id: str, floor: int = 1) -> RuleRun:
+    """A `normal` / `axis` that a class derives as the DIFFERENCE of two of its points (CircleCurve: atop - origin) keeps its
+    direction under every transformation but not its length: scale(r) makes it r long. It may therefore only be used where its
+    length does not matter - inside unit_vector(), divided by its norm, or handed to a function that normalises that parameter
+    (rotation_matrix, f.rotate); a cross or dot product with the raw vector that ends up in a position turns the circle into an
+    ellipse as soon as the entity is scaled."""
+    r = RuleRun(prop, rule_id, floor=floor, what="directions derived as a difference of points (normal = atop - origin) are used only normalised or through functions that normalise them: their length changes when the entity is scaled")
+    norm_params = _normalising_params(repo)
+    for prop_fn in sorted(repo.all_functions(), key=lambda f: f.qualname):
+        if not (prop_fn.is_property and prop_fn.cls is not None and prop_fn.name in ("normal", "axis")):
+            continue
+        rets = [n.value for n in ast.walk(prop_fn.node) if isinstance(n, ast.Return) and n.value is not None]
+        if not (len(rets) == 1 and isinstance(rets[0], ast.BinOp) and isinstance(rets[0].op, ast.Sub)):
+            continue
+        raw = all(isinstance(x, ast.Attribute) and x.attr in ("position", "components") for x in (rets[0].left, rets[0].right)) or not any(isinstance(c, ast.Call) and (attr_chain(c.func) or "").split(".")[-1] == "unit_vector" for c in ast.walk(rets[0]))
+        if not raw:
+            continue
+        cls = prop_fn.cls
+        for c in [cls, *repo.subclasses(cls)]:
+            for m in sorted(c.methods.values(), key=lambda f: f.name):
+                if m is prop_fn or not m.params:
+                    continue
+                selfname = m.params[0]
+                k = 0
+                for u in ast.walk(m.node):
+                    if not (isinstance(u, ast.Attribute) and u.attr == prop_fn.name and isinstance(u.value, ast.Name) and u.value.id == selfname and isinstance(u.ctx, ast.Load)):
+                        continue
+                    p = parent(u)
+                    ok = False
+                    why = ""
+                    if isinstance(p, ast.Call) and u in p.args:
+                        nm = (attr_chain(p.func) or "").split(".")[-1]
+                        if nm == "unit_vector":
+                            ok = True
+                        else:
+                            env = TypeEnv(repo, m)
+                            callees, _ = env.resolve_call(p)
+                            idx = p.args.index(u)
+                            ok = bool(callees)
+                            for cal in callees:
+                                off = 1 if (cal.cls is not None and not cal.is_staticmethod and isinstance(p.func, ast.Attribute)) else 0
+                                pn = cal.params[idx + off] if idx + off < len(cal.params) else None
+                                if pn is None or pn not in norm_params.get(cal.qualname, set()):
+                                    ok = False
+                            if not ok and nm in ("cross", "dot"):
+                                # a product whose result is normalised afterwards (directly or through one local)
+                                g = parent(p)
+                                if isinstance(g, ast.Call) and (attr_chain(g.func) or "").split(".")[-1] == "unit_vector":
+                                    ok = True
+                                elif isinstance(g, ast.Assign) and len(g.targets) == 1 and isinstance(g.targets[0], ast.Name):
+                                    loc = g.targets[0].id
+                                    reads = [x for x in ast.walk(m.node) if isinstance(x, ast.Name) and x.id == loc and isinstance(x.ctx, ast.Load)]
+                                    ok = bool(reads) and all(isinstance(parent(x), ast.Call) and (attr_chain(parent(x).func) or "").split(".")[-1] == "unit_vector" for x in reads)
+                            why = f"'{ast.unparse(p)[:60]}'"
+                    elif isinstance(p, ast.BinOp) and isinstance(p.op, ast.Div) and p.left is u and isinstance(p.right, ast.Call) and (attr_chain(p.right.func) or "").split(".")[-1] == "norm":
+                        ok = True
+                    elif isinstance(p, ast.Return):
+                        ok = True  # handed on as it is: the reader is examined where it uses it
+                    else:
+                        why = f"'{ast.unparse(p)[:60]}'"
+                    r.check(
+                        ok,
+                        m,
+                        f"{c.name}.{m.name}: self.{prop_fn.name} used normalised",
+                        f"{m.qualname} uses self.{prop_fn.name} ({ast.unparse(rets[0])}) in {why} without normalising it: the vector is as long as the entity was scaled, so the result is stretched by that ratio "
+                        "(a scaled circle is evaluated as an ellipse)",
+                        u,
+                        key=f"use:{m.name}#{k}",
+                    )
+                    k += 1
+    return r
